@@ -122,7 +122,7 @@ class BaseWorklist(list):
             self.append("W;")
             return
 
-        if not scheme in {1, 2, 3, 4}:
+        if not isinstance(scheme, int) or not scheme in {1, 2, 3, 4}:
             raise ValueError("scheme must be either 1, 2, 3 or 4")
         self.append(f"W{scheme};")
         return
